@@ -428,7 +428,8 @@ def c17_failures(name, ad, c, rng):
 DATA_KEYS = ("inp", "zinp", "lon", "lat")
 DATA_CARRIERS = ["list_none", "list_nan", "tuple_none", "float32", "int64", "masked_nan", "masked_hidden", "series", "dask"]
 TIME_CARRIERS = ["dt64_s", "dt64_ms", "dt64_us", "pydatetime", "timestamps", "dtindex", "series", "series_utc",
-                 "dtindex_utc", "epoch_s_list", "epoch_s_array", "epoch_s_int32", "epoch_s_int64", "epoch_s_uint32"]
+                 "dtindex_utc", "epoch_s_list", "epoch_s_array", "epoch_s_int32", "epoch_s_int64", "epoch_s_uint32",
+                 "dtindex_s", "series_s", "dtindex_ms"]
 SPAN_KEYS = ("fail_span", "suspect_span", "valid_span", "bbox")
 
 
@@ -503,6 +504,14 @@ def convert_time(t, carrier):
         if any(F(x) * 10 ** 9 != int(v) for x, v in zip(fl, ns.tolist())):
             return t, False
         return (fl if carrier == "epoch_s_list" else np.array(fl, dtype="float64")), True
+    if carrier in ("dtindex_s", "series_s", "dtindex_ms"):
+        # pandas >= 2 keeps the unit of its datetime objects: second / millisecond resolution index or Series
+        unit = "ms" if carrier.endswith("_ms") else "s"
+        per = 10 ** 6 if unit == "ms" else 10 ** 9
+        if np.any(ns % per):
+            return t, False
+        idx_u = pd.DatetimeIndex(t.astype(f"datetime64[{unit}]"))
+        return (pd.Series(idx_u) if carrier.startswith("series") else idx_u), True
     if np.any(ns % 1000):
         return t, False
     idx = pd.DatetimeIndex(t)
@@ -541,7 +550,7 @@ def carrier_transform(data_carrier, time_carrier, span_kind):
     return tr, applied
 
 
-def c15_failures(name, ad, c, rng, full=False, data_only=False):
+def c15_failures(name, ad, c, rng, full=False, data_only=False, time_only=False):
     """flags under every carrier == flags under the base carrier (float64 ndarray / datetime64[ns])"""
     base, _ = ad.impl(c)
     fails, n_eval = [], 0
@@ -550,6 +559,8 @@ def c15_failures(name, ad, c, rng, full=False, data_only=False):
     combos.append((rng.choice(DATA_CARRIERS), rng.choice(TIME_CARRIERS), rng.choice(["list", "tuple"])))
     if data_only:
         combos = [(dc, None, None) for dc in DATA_CARRIERS]
+    if time_only:
+        combos = [(None, tc, None) for tc in TIME_CARRIERS]
     if not full:
         combos = rng.sample(combos, 8)
     for dc, tc, sk in combos:
